@@ -112,6 +112,42 @@ contract('Core.SystemManager.remove_system',
          props=['C01'])
 
 
+def clean_up_requires(self):
+    return SM_rep(self.model.systems)
+
+
+def clean_up_post(self, old):
+    """System.clean_up(): the system leaves the scheduler exactly as remove_system(self.id) makes it leave."""
+    s_id = self.id
+    Q = self.model.systems.execution_queue
+    Q0 = old.self.model.systems.execution_queue
+    S = self.model.systems.systems
+    S0 = old.self.model.systems.systems
+    k = index_of(Q0, S0[s_id])
+    return (len(Q) == len(Q0) - 1 and k < len(Q0)
+            and all(Q[j] is Q0[j] for j in range(0, k))
+            and all(Q[j] is Q0[j + 1] for j in range(k, len(Q)))
+            and s_id not in S and len(S) == len(S0) - 1
+            and all(k2 == s_id or (k2 in S and S[k2] is S0[k2]) for k2 in S0)
+            and all(implies(order_of(S0, a) < order_of(S0, b), order_of(S, a) < order_of(S, b))
+                    for a in S for b in S)
+            and all(k2 in S0 for k2 in S)
+            and SM_rep(self.model.systems))
+
+
+def clean_up_unknown(self, old):
+    return self.id not in old.self.model.systems.systems
+
+
+contract('Core.System.clean_up',
+         params={'self': 'ref:System'},
+         requires=[clean_up_requires],
+         ensures={'C01': [clean_up_post], 'C05': [clean_up_post]},
+         raises={'SystemNotFoundError': dict(when=clean_up_unknown)},
+         modifies=['self.model.systems.systems', 'self.model.systems.execution_queue'],
+         native=False, props=['C01', 'C05'])
+
+
 def sm_init_post(self, model):
     return (self.timestep == 0 and len(self.systems) == 0 and len(self.execution_queue) == 0
             and len(self.component_pools) == 0 and self.model is model)
